@@ -160,6 +160,14 @@ pub struct Personality {
     pub gc: GcTemplate,
     /// faults (non-neutral decisions) stop once this many instructions have run
     pub fault_window: u64,
+    /// the budget used once faults have stopped (and by reference runs): the workload's neutral
+    /// budget, so that busy-waiting costs the same per host call as in the reference run
+    #[serde(default = "default_neutral")]
+    pub neutral: u32,
+}
+
+fn default_neutral() -> u32 {
+    4096
 }
 
 impl Personality {
@@ -171,6 +179,7 @@ impl Personality {
             stall_main_only: false,
             gc: GcTemplate::Off,
             fault_window: u64::MAX,
+            neutral: neutral_budget,
         }
     }
 }
@@ -477,7 +486,7 @@ impl Sim {
                 } else {
                     GcBase::Default
                 },
-                neutral_budget_of(&p.budget),
+                neutral_budget_of(p),
             ),
             Source::Trace(t) => Trace::neutral(t.gc_base, t.neutral_budget),
         };
@@ -635,7 +644,7 @@ impl Sim {
             }
             Source::Seed { rng, p } => {
                 if !open {
-                    neutral_budget_of(&p.budget)
+                    neutral_budget_of(p)
                 } else {
                     match p.budget {
                         Budget::Const(k) => k,
@@ -1164,10 +1173,10 @@ impl Sim {
     }
 }
 
-fn neutral_budget_of(b: &Budget) -> u32 {
-    match b {
-        Budget::Const(k) => *k,
-        _ => 65_536,
+fn neutral_budget_of(p: &Personality) -> u32 {
+    match p.budget {
+        Budget::Const(k) => k,
+        _ => p.neutral,
     }
 }
 
